@@ -89,7 +89,7 @@ func TestC13_Restart(t *testing.T) {
 	app.PersistMinDuration = 1000 * time.Hour
 	defer func() { app.PersistMinDuration = old }()
 	cnt := 0
-	runRapid(t, N(1500, 20000), func(rt *rapid.T) {
+	runRapid(t, N(1500, 120000), func(rt *rapid.T) {
 		fail := func(sig, f string, a ...any) { fatalf(rt, sig, f, a...) }
 		// what a restart can lose is whatever is derived rather than stored: the validator hand-over and
 		// late check-ins exercise most of that, so most histories aim there
